@@ -515,9 +515,10 @@ print(json.dumps(out))
 '''
 
 
-def cpython_oracle(p: Dict[str, Any], root: Path) -> Dict[str, Any]:
-    """Import the generated project with CPython (clean subprocess): class site -> base sites / mro sites, namespaces."""
-    names = [".".join(mod_path(p, i)) for i in range(len(p["mods"]))]
+def cpython_oracle(p: Dict[str, Any], root: Path, order: Optional[Sequence[int]] = None) -> Dict[str, Any]:
+    """Import the generated project with CPython (clean subprocess): class site -> base sites / mro sites, namespaces.
+       `order`: the modules (1-based indexes) in the order they are imported (matters for import cycles)."""
+    names = [".".join(mod_path(p, i)) for i in (range(len(p["mods"])) if order is None else [k - 1 for k in order])]
     r = subprocess.run([sys.executable, "-I", "-c", _ORACLE, str(root), json.dumps(names)], capture_output=True,
                        text=True, timeout=60)
     if r.returncode != 0:
